@@ -23,6 +23,14 @@ STARTS = [MON, MON + 2 * D, 1741392000 - 3 * D,  # week of US DST start 2025-03-
           1609113600]                            # 2020-12-28 (ISO week 53)
 
 
+# (zone, an instant a few days before one of its DST transitions)
+DST_CASES = [("America/New_York", 1741392000 - 3 * D), ("America/Los_Angeles", 1741392000 - 2 * D),
+             ("Europe/Berlin", 1743292800 - 4 * D), ("Europe/London", 1743292800 - 2 * D),
+             ("Europe/Berlin", 1761436800 - 2 * D), ("America/New_York", 1762041600 - 3 * D),   # US DST end 2025-11-02
+             ("Australia/Adelaide", 1743811200 - 3 * D), ("Pacific/Auckland", 1743811200 - 4 * D),  # southern DST end 2025-04-06
+             ("Australia/Adelaide", 1759622400 - 2 * D)]                                       # southern DST start 2025-10-05
+
+
 class Knobs:
     def __init__(self, **kw):
         self.max_tasks = 6
@@ -53,6 +61,7 @@ class Knobs:
         self.p_group_alloc = 0.08
         self.p_twin = 0.2
         self.p_month = 0.07
+        self.p_dst = 0.0              # project placed across a DST transition of a resource's zone
         self.p_gvac = 0.2
         self.aligned_only = True      # calendars / starts / gaps multiples of the resolution
         self.forward_only = False
@@ -122,6 +131,10 @@ def gen_project(rng, k=None):
     k = k or Knobs()
     G = rng.choice(k.resolutions)
     start = rng.choice(k.starts)
+    dst_zone = None
+    if pick(rng, k.p_dst):
+        dst_zone, start = rng.choice(DST_CASES)
+        start = (start // D) * D
     if not k.aligned_only and pick(rng, 0.3):
         start += rng.choice([9 * H + 20 * 60, 13 * 60, 30 * 60])
     p = {"start": start, "dur": [rng.choice(k.dur_weeks), "w"], "G": G}
@@ -164,6 +177,8 @@ def gen_project(rng, k=None):
             r["eff"] = rng.choice(k.eff)
         if pick(rng, k.p_tz):
             r["tz"] = rng.choice(ZONES)
+        if dst_zone is not None and i == 0:
+            r["tz"] = dst_zone
         if p.get("shifts") and pick(rng, 0.6):
             r["shift"] = "sh1"
         elif pick(rng, k.p_wh):
